@@ -183,6 +183,26 @@ pub fn seeded() -> Vec<(LinearModel, &'static str)> {
     m.add_constraint(vec![1.0, 0.0], Comparison::GreaterOrEqual, 2.0);
     m.set_objective(vec![0.0, 1.0], OptimizationType::Min);
     v.push((m, "seeded-primal-dual-infeasible"));
+    // microlp flat-free-direction, third symptom: bounded mixed models with an UNUSED free column answered with
+    // InternalError("bounded B&B node reported unbounded") (thorough tier)
+    let mut m = LinearModel::new();
+    m.add_variable("v0", VariableType::Boolean); m.add_variable("v1", VariableType::Boolean);
+    m.add_variable("v2", free()); m.add_variable("v3", VariableType::IntegerRange(-1, 0));
+    m.add_constraint(vec![1.0, 2.0, 0.0, -1.0], Comparison::GreaterOrEqual, 2.0);
+    m.add_constraint(vec![1.0, 2.0, 0.0, -1.0], Comparison::GreaterOrEqual, 2.0);
+    m.add_constraint(vec![0.0; 4], Comparison::GreaterOrEqual, -1.0);
+    m.add_constraint(vec![0.0; 4], Comparison::Equal, 0.0);
+    m.set_objective(vec![-1.0, 0.0, 0.0, -2.0], OptimizationType::Max);
+    let (o, t, _, c, vs, d) = m.into_parts();
+    v.push((LinearModel::new_from_parts(o, t, -4.0, c, vs, d), "seeded-microlp-unused-free-column"));
+    let mut m = LinearModel::new();
+    m.add_variable("v0", VariableType::Boolean); m.add_variable("v1", nonneg());
+    m.add_variable("v2", VariableType::NonNegativeReal(2.0, 4.0)); m.add_variable("v3", free());
+    for (k, le) in [(1.0, false), (1.0, false), (3.0, false), (2.0, false), (-2.0, true)] {
+        m.add_constraint(vec![2.0 * k, k, k, 0.0], if le { Comparison::LessOrEqual } else { Comparison::GreaterOrEqual }, 3.0 * k);
+    }
+    m.set_objective(vec![-1.0, -2.0, -3.0, 0.0], OptimizationType::Max);
+    v.push((m, "seeded-microlp-unused-free-column"));
     // clarabel gives up with Other("Numerical error") on an infeasible model (C16-clarabel-numerical-error-infeasible):
     // NO verdict from the interior-point path, hence not a wrong one for C05 — kept here so that path stays exercised
     let mut m = LinearModel::new();
